@@ -88,7 +88,7 @@ def gen_build(bname, repo=None, usize_bytes=8):
     root = {}
     for modpath in tree:
         node = root
-        for seg in modpath.split('::'):
+        for seg in [x for x in modpath.split('::') if x]:
             node = node.setdefault(seg, {})
         node['__parts__'] = tree[modpath]
 
